@@ -906,3 +906,63 @@ Proof.
 Qed.
 
 End Layout.
+
+(* ================================================================== the cost print shows is the WRITTEN cost *)
+Section WrittenCost.
+Local Open Scope Q_scope.
+
+(* finalize may rewrite a posting's cost (p_cost: the lot's basis after the gain/loss adjustment of
+   exchange_posts, xact.cc:301-327); print reads given_cost (e_given), never p_cost.  The statement does not
+   mention p_cost p at all: it holds whatever finalize left there *)
+Theorem printed_cost_is_written_cost cp xs count index first p e a g :
+  p_generated p = false -> p_calculated p = false -> p_cost_calculated p = false ->
+  p_amt p = Some a -> e_given e = Some g ->
+  exists ln, decide_post cp xs count index first (p, e) = Ok (Some ln) /\
+    (if e_in_full e || is_realzero a
+     then l_cost ln = Some (CTotal, e_cost_virtual e, read_back cp (amt_abs g))
+     else exists q, amt_div cp g a = Ok q /\
+                    l_cost ln = Some (CPerUnit, e_cost_virtual e, read_back cp (amt_abs q))).
+Proof.
+  intros Hg Hc Hcc Ha He. unfold decide_post. rewrite Hg, Hc, Ha, He, Hcc. cbn [orb].
+  destruct (e_in_full e); cbn [orb bind].
+  - eexists. split; reflexivity.
+  - destruct (is_realzero a) eqn:Hz; cbn [bind].
+    + eexists. split; reflexivity.
+    + destruct (per_unit_quotient_total cp g a Hz) as [q Hq]. rewrite Hq. cbn [bind].
+      eexists. split; [reflexivity|]. exists q. split; reflexivity.
+Qed.
+
+Definition set_cost (p : post) (c : option amount) : post :=
+  mkPost (p_acct p) (p_kind p) (p_amt p) c (p_lotprice p) (p_calculated p) (p_generated p) (p_cost_calculated p).
+
+Corollary printed_cost_ignores_adjusted_cost cp xs count index first first' p e a g c' :
+  p_generated p = false -> p_calculated p = false -> p_cost_calculated p = false ->
+  p_amt p = Some a -> e_given e = Some g ->
+  exists ln ln', decide_post cp xs count index first (p, e) = Ok (Some ln) /\
+                 decide_post cp xs count index first' (set_cost p c', e) = Ok (Some ln') /\
+                 l_cost ln = l_cost ln'.
+Proof.
+  intros Hg Hc Hcc Ha He.
+  destruct (printed_cost_is_written_cost cp xs count index first p e a g Hg Hc Hcc Ha He) as [ln [H1 H2]].
+  destruct (printed_cost_is_written_cost cp xs count index first' (set_cost p c') e a g Hg Hc Hcc Ha He) as [ln' [H1' H2']].
+  exists ln, ln'. split; [exact H1|]. split; [exact H1'|].
+  destruct (e_in_full e || is_realzero a); [congruence|].
+  destruct H2 as [q [Hq ->]]. destruct H2' as [q' [Hq' ->]]. congruence.
+Qed.
+
+(* and the number after `@@` is the written total exactly, whenever its decimals are covered *)
+Corollary printed_total_cost_quantity cp xs count index first p e a g :
+  p_generated p = false -> p_calculated p = false -> p_cost_calculated p = false ->
+  p_amt p = Some a -> e_given e = Some g -> e_in_full e = true -> printable cp (amt_abs g) ->
+  exists ln t, decide_post cp xs count index first (p, e) = Ok (Some ln) /\
+               l_cost ln = Some (CTotal, e_cost_virtual e, t) /\ aq t == Qabs (aq g) /\ acomm t = acomm g.
+Proof.
+  intros Hg Hc Hcc Ha He Hf Hp.
+  destruct (printed_cost_is_written_cost cp xs count index first p e a g Hg Hc Hcc Ha He) as [ln [H1 H2]].
+  rewrite Hf in H2. cbn [orb] in H2. exists ln, (read_back cp (amt_abs g)). split; [exact H1|]. split; [exact H2|].
+  destruct (read_back_exact cp (amt_abs g) Hp) as [Hq [Hcm _]]. split.
+  - rewrite Hq. apply amt_abs_exact.
+  - rewrite Hcm. unfold amt_abs. destruct (Qnum (aq g) <? 0)%Z; reflexivity.
+Qed.
+
+End WrittenCost.
